@@ -220,6 +220,29 @@ def _reach(methods, entries):
     return out
 
 
+TERNARY_PROGRAM = """
+from liquid2 import Environment
+env = Environment()
+applied = []
+real = env.filters["upcase"]
+def spy(val, *a, **k):
+    applied.append("upcase")
+    return real(val, *a, **k)
+env.filters["upcase"] = spy
+t = env.from_string("{{ a | upcase if b else c }}")
+out = t.render(a="q", b=True, c="w")
+reported = sorted(t.analyze().filters)
+VIOLATES = bool(applied) and "upcase" not in reported
+OBSERVED = "render applied %s (output %r); analyze().filters reports %s" % (applied, out, reported)
+"""
+
+
+def sm_extract_src(repo):
+    sm = repo.module("liquid2.static_analysis")
+    fn = sm.find("_extract_filters") if sm else None
+    return ast.unparse(fn) if fn is not None else ""
+
+
 def _shared_with_reporting_parent(repo, mod, cls, field):
     """`field` of expression class `cls` is deliberately left out of children(): accepted when every construction site passes,
     for that field, a local that the same function also hands to a node constructor whose expressions() reports it."""
@@ -363,6 +386,42 @@ def c11_sites(repo_root, tier):
         _ob(obs, f"{m.name}:{c.name}/site.evaluated-subexpressions-reported", not still,
             note if not still else f"evaluate() evaluates self.{still[0][0]} ({ue[still[0][0]]}) which children() does not report ({still[0][1]})",
             witness=None if not still else {"class": c.name, "field": [a for a, _ in still]})
+        # a sub-expression evaluated *as a whole* (self.f.evaluate(..)) owns filters / a path of its own: children() must hand out
+        # self.f itself, not only self.f.children() - or _extract_filters must look into it explicitly
+        if "children" in meth:
+            chfn = meth["children"][2]
+            whole = set()
+            for en in RUN_EXPR:
+                if en in meth and meth[en][1].name == c.name:
+                    for call in ast.walk(meth[en][2]):
+                        if isinstance(call, ast.Call) and isinstance(call.func, ast.Attribute) and call.func.attr in EVAL_METHODS \
+                                and isinstance(call.func.value, ast.Attribute) and isinstance(call.func.value.value, ast.Name) and call.func.value.value.id == "self":
+                            whole.add(call.func.value.attr)
+            for f in sorted(whole):
+                bare = False
+                for n in ast.walk(chfn):
+                    if isinstance(n, ast.Attribute) and isinstance(n.value, ast.Name) and n.value.id == "self" and n.attr == f:
+                        # is this occurrence the receiver of `.children()`?
+                        par_is_children = any(isinstance(p, ast.Attribute) and p.value is n and p.attr == "children" for p in ast.walk(chfn))
+                        if not par_is_children:
+                            bare = True
+                handled = False
+                ef = sm_extract_src(repo)
+                if f"expression.{f}.filters" in ef and c.name in ef:
+                    handled = True
+                shared, _why = (False, "")
+                if not (bare or handled):
+                    shared, _why = _shared_with_reporting_parent(repo, m, c, f)
+                okw = bare or handled or shared
+                wit = None
+                if not okw and c.name == "TernaryFilteredExpression":
+                    wit = {"program": TERNARY_PROGRAM, "class": c.name, "field": f}
+                elif not okw:
+                    wit = {"class": c.name, "field": f}
+                _ob(obs, f"{m.name}:{c.name}/site.whole-subexpression-is-child.{f}", okw,
+                    f"self.{f} is evaluated as a whole and is handed out by children() itself" + (" (or handled explicitly by _extract_filters)" if handled and not bare else "") if okw
+                    else f"evaluate() evaluates self.{f} as a whole, but children() only hands out self.{f}.children(): filters applied by self.{f} itself are never reported",
+                    witness=wit)
         if "scope" in meth and meth["scope"][1].name != "Expression":
             flds = _self_attrs(meth["scope"][2]) - set(meth)
             binders = set()
